@@ -106,7 +106,11 @@ func main() {
 		})
 	}
 
-	n := run.N(19, 2000)
+	// ---- corpus: draft-carrying transactions sharing byte-identical data (one
+	// hash) inside one block, every ordered pair of kinds
+	history(run, st, sh, next(), rng.Fork(), func(h *ledgerh.H) { h.CorpusSharedDrafts() })
+
+	n := run.N(18, 2000)
 	for i := 0; i < n; i++ {
 		steps := 6 + rng.Intn(10)
 		if run.Thorough() {
